@@ -27,7 +27,9 @@ class MetabookObject:
             type_names[k] = value
         self.image = None
         self.__dict__.update(copy.deepcopy(type_names))
-        self.__dict__.update(kw)
+        # None means "not given" (it is what _json() leaves out): keep the class default,
+        # so that dumping and loading again is a fixed point
+        self.__dict__.update((k, v) for k, v in kw.items() if v is not None)
         self.type = self.__class__.__name__
 
     def __getitem__(self, key):
